@@ -106,8 +106,85 @@ pub async fn dump(app: &Arc<AppShareData>) -> anyhow::Result<Value> {
     for (k, v) in sdb.send(rnacos::verif_hooks::DumpSequences).await? {
         seq.insert(k, json!(v));
     }
-    Ok(json!({"cfg": cfg, "listing_total": listing_total, "ns": ns, "tables": tables, "seq": seq}))
+    // ---- persistent service instances (registry dump hook; only what a query serves: address, weight, enabled,
+    //      health, metadata - no timestamps, no connection ids)
+    let mut nam = Map::new();
+    let nd: Value = serde_json::from_str(&app.naming_addr.send(rnacos::verif_hooks::DumpNaming).await?)?;
+    for svc in nd["services"].as_array().cloned().unwrap_or_default() {
+        for i in svc["instances"].as_array().cloned().unwrap_or_default() {
+            if i["ephemeral"] == json!(false) {
+                let key = format!("{}|{}|{}|{}:{}", svc["namespace"].as_str().unwrap_or(""), svc["group"].as_str().unwrap_or(""),
+                    svc["service"].as_str().unwrap_or(""), i["ip"].as_str().unwrap_or(""), i["port"]);
+                nam.insert(key, json!({"weight": i["weight"], "enabled": i["enabled"], "healthy": i["healthy"], "metadata": i["metadata"],
+                    "listed_perpetual": svc["perpetual"].as_array().map(|p| p.contains(&json!(format!("{}:{}", i["ip"].as_str().unwrap_or(""), i["port"]))))}));
+            }
+        }
+    }
+    // ---- replicated cache: the candidate keys of the drivers (the manager has no listing query)
+    let mut cch = Map::new();
+    for k in CACHE_KEYS {
+        let key = rnacos::cache::model::CacheKey::new(rnacos::cache::model::CacheType::String, Arc::new(k.to_string()));
+        use rnacos::cache::actor_model::{CacheManagerLocalReq, CacheManagerRaftResult};
+        if let CacheManagerRaftResult::Value(v) = app.direct_cache_manager.send(CacheManagerLocalReq::Get(key.clone())).await?? {
+            let ttl = match app.direct_cache_manager.send(CacheManagerLocalReq::Ttl(key)).await?? {
+                CacheManagerRaftResult::Ttl(t) => json!(t),
+                _ => Value::Null,
+            };
+            cch.insert(k.to_string(), json!({"value": serde_json::to_value(&v)?, "no_expiry": ttl.as_i64().map(|t| t < 0)}));
+        }
+    }
+    // ---- MCP: tool specs (listing + every version) and servers (listing + full value with history)
+    use rnacos::mcp::model::actor_model::{McpManagerReq, McpManagerResult, McpToolSpecQueryParam};
+    use rnacos::mcp::model::mcp::McpQueryParam;
+    let mut tools = Map::new();
+    let mut tool_total = 0usize;
+    if let McpManagerResult::ToolSpecPageInfo(n, list) = app.mcp_manager.send(McpManagerReq::QueryToolSpec(McpToolSpecQueryParam { offset: 0, limit: 1_000_000, ..Default::default() })).await?? {
+        tool_total = n;
+        for d in list {
+            let key = rnacos::mcp::model::tools::ToolKey::new(d.namespace.clone(), d.group.clone(), d.tool_name.clone());
+            let mut e = Map::new();
+            e.insert("listed_version".into(), json!(d.version));
+            e.insert("listed_def".into(), json!(d.function.description.as_str()));
+            if let McpManagerResult::ToolSpecInfo(Some(t)) = app.mcp_manager.send(McpManagerReq::GetToolSpec(key)).await?? {
+                e.insert("cur".into(), json!(t.current_version));
+                let mut vers = Map::new();
+                for (v, sv) in &t.versions {
+                    vers.insert(v.to_string(), json!(sv.function.description.as_str()));
+                }
+                e.insert("vers".into(), Value::Object(vers));
+            }
+            tools.insert(format!("{}|{}|{}", d.namespace, d.group, d.tool_name), Value::Object(e));
+        }
+    }
+    fn value_json(v: &rnacos::mcp::model::mcp::McpServerValue) -> Value {
+        let mut ts: Vec<Value> = v.tools.iter().map(|t| json!({"k": t.tool_key.tool_name.as_str(), "ver": t.tool_version, "c": t.spec.description.as_str()})).collect();
+        ts.sort_by_key(|t| t["k"].as_str().unwrap_or("").to_string());
+        json!({"vid": v.id, "tools": ts})
+    }
+    let mut srv = Map::new();
+    let mut srv_total = 0usize;
+    if let McpManagerResult::ServerPageInfo(n, list) = app.mcp_manager.send(McpManagerReq::QueryServer(McpQueryParam { offset: 0, limit: 1_000_000, namespace_id: None, name_filter: None })).await?? {
+        srv_total = n;
+        for d in list {
+            let mut e = Map::new();
+            e.insert("name".into(), json!(d.name.as_str()));
+            e.insert("namespace".into(), json!(d.namespace.as_str()));
+            e.insert("auth_keys".into(), json!(d.auth_keys.iter().map(|k| k.as_str().to_string()).collect::<Vec<_>>()));
+            if let McpManagerResult::ServerInfo(Some(s)) = app.mcp_manager.send(McpManagerReq::GetServer(d.id)).await?? {
+                e.insert("cur".into(), value_json(&s.current_value));
+                e.insert("rel".into(), value_json(&s.release_value));
+                e.insert("hist".into(), Value::Array(s.histories.iter().map(|h| value_json(h)).collect()));
+                e.insert("unique_key".into(), json!(s.unique_key.as_str()));
+            }
+            srv.insert(d.id.to_string(), Value::Object(e));
+        }
+    }
+    Ok(json!({"cfg": cfg, "listing_total": listing_total, "ns": ns, "tables": tables, "seq": seq,
+        "nam": nam, "cch": cch, "tool": tools, "tool_total": tool_total, "srv": srv, "srv_total": srv_total}))
 }
+
+/// the cache keys the drivers use (DirectCacheManager offers no listing)
+pub const CACHE_KEYS: [&str; 4] = ["c1", "c2", "c3", "c4"];
 
 pub async fn exec(app: &Arc<AppShareData>, name: &str, _op: &Value) -> anyhow::Result<Value> {
     match name {
